@@ -132,6 +132,14 @@ def gen_clean_curve(rng):
         ys = _cum([-rng.randint(1, 40) / 8 for _ in range(n)], 300.0)
         xs = [rng.choice([0, 0, 5, 10, 20, 40, 12.5]) + 0.0 for _ in range(n)]
         return "gcc", list(zip(xs, ys))
+    if k < 0.77:                                     # one slightly bent vertex at ordinary temperatures: the bend is far above tol
+        n = rng.randint(3, 9)                        # (so the vertex must be kept) but small relative to |y|
+        xs = [float(10 * i) for i in range(n)]
+        y0, slope = rng.choice([100.0, 250.0, 400.0]), rng.choice([0.5, 1.0, 2.0])
+        ys = [y0 + slope * x for x in xs]
+        j = rng.randint(1, n - 2)
+        ys[j] += rng.choice([1, -1]) * rng.choice([2.0 ** -17, 2.0 ** -13, 2.0 ** -10])
+        return "slightlybent", list(zip(xs, ys))
     if k < 0.82:                                     # near-collinear: second differences below tol (D16 drift)
         n = rng.randint(3, 120)
         c = rng.choice([1, 2, 3]) * 2.0 ** -22
